@@ -5,7 +5,7 @@ package probe
 //
 //	hdr:Name=Value   set a response header          status:N     WriteHeader(N)
 //	write:N          write N pattern bytes           text:S       write the literal S
-//	sleep:MS         sleep MS milliseconds
+//	sleep:MS         sleep MS milliseconds       sleepctx:MS  the same, but give up (499) when the request context is cancelled
 //	flush            http.Flusher.Flush              read:K       read the request body in chunks of K
 //	report           write {"read":n,"err":"…","sum":"…"} (JSON) as the body (status 200 unless set)
 //	ret:S            return (S, nil)                 reterr:S     return (S, error "probe error")
@@ -92,6 +92,14 @@ func (p probeHandler) ServeHTTP(w http.ResponseWriter, r *http.Request) (int, er
 		case "sleep":
 			ms, _ := strconv.Atoi(arg)
 			time.Sleep(time.Duration(ms) * time.Millisecond)
+		case "sleepctx":
+			// like a handler that watches the request context (proxy, fastcgi, websocket do)
+			ms, _ := strconv.Atoi(arg)
+			select {
+			case <-time.After(time.Duration(ms) * time.Millisecond):
+			case <-r.Context().Done():
+				return 499, r.Context().Err()
+			}
 		case "flush":
 			if f, ok := w.(http.Flusher); ok {
 				f.Flush()
